@@ -3,7 +3,7 @@
 name=$1; prop=$2; tier=${3:-quick}
 cd /repo || exit 2
 if ! git diff --quiet; then echo "/repo has uncommitted changes"; exit 2; fi
-git apply --3way /verif/seeded/$name/patch.diff 2>/dev/null || git apply /verif/seeded/$name/patch.diff || { echo "patch does not apply"; exit 2; }
+git apply /verif/seeded/$name/patch.diff 2>/dev/null || { git checkout -- . ; git reset -q; echo "patch does not apply to the current tree"; exit 2; }
 git reset -q
 cd /verif
 ./check $prop $tier > /tmp/try-$name-$prop.out 2>&1; rc=$?
